@@ -5,7 +5,7 @@
    recording backend received (fills and texts named by their unique colours,
    Push/Pop of clip / opacity group / transform).  `check` runs the model on the
    same tree and compares the observable events.
-   codes: 0 agree, 1 the event sequences differ, 2 skipped (tables: not modelled),
+   codes: 0 agree, 1 the event sequences differ, 2 skipped (a table part with a visible background / border: drawTable's layers are not modelled), 10 tree with a table: text events out of order,
           3 the model panics but the implementation did not, 4 the implementation
           panicked while drawing but the model does not,
           5 implementation = model but both differ from the Appendix E
@@ -183,23 +183,45 @@ Definition statements_hold (pi : binfo) (canvas : N) (roots : list box) : bool :
        | _ => true
        end.
 
+(* Tables.  The bookkeeping of dispatch for table cells (a cell goes to blocksAndCells only,
+   stacking.go:151-154; its line content is painted in step 7 in tree order together with the
+   block content) is in the model.  drawTable's layered backgrounds / borders are not: the model
+   stands for them by the single event TableLayers, which the trace translation never produces.
+   A tree whose table parts (table, row groups, rows, cells, columns) have NO visible background
+   or border is compared on everything else (the TableLayers events are dropped on the model side);
+   a tree with a decorated table part is skipped (code 2). *)
+Definition table_layer (e : event) : bool :=
+  match e with TableLayers id => N.ltb id 1000000000 | _ => false end.
+Definition drop_layers (l : list event) : list event := filter (fun e => negb (table_layer e)) l.
+Fixpoint table_decorated (b : box) : bool :=
+  match b with
+  | Box i cs => match bkind i with
+                | KTable | KTableCell | KOther => negb (N.eqb (N.land (bvis i) 3) 0)
+                | _ => false
+                end || existsb table_decorated cs
+  end.
+Definition is_content (e : event) : bool := match e with Content _ => true | _ => false end.
+
 Definition check (c : case) : N :=
   match c with
   | CPage pi canvas roots crashed noclip impl =>
-    if existsb has_table roots then 2%N
-    else match model_events c with
+    if existsb table_decorated roots then 2%N
+    else match res_map drop_layers (model_events c) with
          | Ok evs => if crashed then 4%N
-                     else if negb (events_eqb evs impl) then 1%N
-                     else if negb (events_eqb (spec_events c) impl) then 5%N
+                     else if negb (events_eqb evs impl) then
+                            (* 10: a tree with a table whose TEXT events (step 7) are out of order *)
+                            if existsb has_table roots && negb (events_eqb (filter is_content evs) (filter is_content impl))
+                            then 10%N else 1%N
+                     else if negb (events_eqb (drop_layers (spec_events c)) impl) then 5%N
                      else if negb (statements_hold pi canvas roots) then 8%N
-                     else if negb (events_eqb (strict_events c) (filter no_clip impl)) then
+                     else if negb (events_eqb (drop_layers (strict_events c)) (filter no_clip impl)) then
                             (* the deviation from CSS's own stacking contexts is attributed to the overflow boxes
                                only if (a) the tree has an overflow != visible box that CSS does not make a
                                stacking context and (b) outside the sub-trees of those boxes the two orders agree *)
                             let cl := flat_map clip_ids roots in
                             let out := fun e => negb (memN (event_id e) cl) in
                             if match cl with [] => false | _ => true end
-                               && events_eqb (filter out (strict_events c)) (filter out (filter no_clip impl))
+                               && events_eqb (filter out (drop_layers (strict_events c))) (filter out (filter no_clip impl))
                             then 6%N else 9%N
                      else if negb (forallb wf_shape roots) then 7%N
                      else 0%N
